@@ -235,8 +235,8 @@ class ArrheniusParam(defaultnamedtuple("ArrheniusParam", "A Ea ref", [None])):
             str_A, str_A_unit = format_string(self.A, precision, tex)
             str_Ea, str_Ea_unit = format_string(self.Ea, precision, tex)
         except Exception:
-            str_A, str_A_unit = precision.format(self.A), "-"
-            str_Ea, str_Ea_unit = precision.format(self.Ea), "-"
+            str_A, str_A_unit = precision % self.A, "-"  # precision: e.g. "%.5g"
+            str_Ea, str_Ea_unit = precision % self.Ea, "-"
         return (str_A, str_A_unit), (str_Ea, str_Ea_unit)
 
     def equation_as_string(self, precision, tex=False):
